@@ -96,6 +96,9 @@ def fmt(c):
         return 'S' + (c[1].hex() or '-')
     if k == 'B':
         return 'B' + (c[1] or '-')
+    if k == 'W':
+        # input-only: the bits c[3] as a view into a longer buffer (c[1] junk bits before, c[2] after)
+        return 'W%d.%d.%s' % (c[1], c[2], c[3] or '-')
     if k == 'V':
         return 'V(' + ','.join(fmt(x) for x in c[1]) + ')'
     if k == 'M':
